@@ -24,8 +24,9 @@ var e1Owners = map[string][]string{
 	"C07": {"wire", "concurrent-io", "wire-trailing"},
 	"C10": {"handler-error", "spurious-error", "probe", "client-stuck"},
 	"C11": {"metadata", "metadata-wire"},
-	"C12": {"close-hang", "close-count", "close-leak", "close-later-op", "close-ctx", "serve-order", "panic", "fault-hang"},
+	"C12": {"close-hang", "close-count", "close-leak", "close-later-op", "close-ctx", "serve-order", "panic", "fault-hang", "pooled-close", "pooled-leak", "pooled-conn-leak"},
 	"C13": {"panic", "byz-memory", "close-leak"},
+	"C15": {"pool-bounds", "pooled-conn-leak", "pooled-close", "pooled-hang", "pooled-probe", "pooled-leak", "panic", "crosstalk", "delivery"},
 	"C18": {"oldreader", "metadata-wire", "delivery", "completeness", "crosstalk", "probe", "handler-error", "spurious-error"},
 }
 
@@ -219,6 +220,9 @@ func (x *e1) afterSend(sd *sideRec, rec *sendRec) {
 }
 
 func (x *e1) checkFlushed(sd *sideRec, rec *sendRec, when string) {
+	if x.pooled != nil {
+		return // per-connection monitors; the flush clause is decided in the single-connection families
+	}
 	// number of successful sends with identical bytes so far
 	same := 0
 	for _, s := range sd.Sends {
